@@ -527,6 +527,34 @@ def run_stale_sinks(acc):
                 acc.case(dict(kind="sink_stale", form=name, seen_gone=seen_gone, zombie=zombie), True, viols)
 
 
+def run_get_foreign_states(acc):
+    """"the get form returns what the kernel reports": states psutil's own setters never produce but other tools do
+    (`ionice -c3` stores (IDLE, 7); a raw ioprio_set(); nice values and masks set by somebody else)."""
+    from vlib import histories, psu
+    ps = psu.load()
+    for cls, lvl in [(3, 7), (3, 4), (3, 0), (0, 4), (0, 0), (1, 0), (1, 7), (2, 0), (2, 7), (2, 4)]:
+        for nice in (-20, -1, 0, 19):
+            w = histories.World(ps)
+            viols = []
+            with w:
+                w.apply(("spawn", 7, False))
+                pr_ = w.t.procs[7]
+                pr_.ioprio, pr_.nice, pr_.affinity = (cls, lvl), nice, [1, 3]
+                w.apply(("new", 7))
+                p = w.handles[0].obj
+                try:
+                    got = (tuple(p.ionice()), p.nice(), p.cpu_affinity())
+                except Exception as e:  # noqa: BLE001
+                    viols.append((f"get_exception:{type(e).__name__}:state_set_by_another_tool", repr(e)))
+                else:
+                    acc.count("foreign_states_read_back")
+                    if got[0] != (cls, lvl):
+                        viols.append(("ionice_get_wrong:state_set_by_another_tool", f"kernel says class {cls} level {lvl}, ionice() -> {got[0]}"))
+                    if got[1] != nice or got[2] != [1, 3]:
+                        viols.append(("get_wrong:state_set_by_another_tool", f"nice/affinity -> {got[1:]} want {(nice, [1, 3])}"))
+            acc.case(dict(kind="sink_foreign_state", cls=cls, lvl=lvl, nice=nice), True, viols)
+
+
 def run_refusals(acc):
     """The kernel may refuse a request psutil finds nothing wrong with (a cpuset, a per-CPU kernel thread, a limit above the
     hard limit): the refusal must come out as an exception - a call that returns normally claims the value was set."""
@@ -680,6 +708,7 @@ def run_shard(shard):
     elif k == "sinks":
         run_sinks(acc)
         run_stale_sinks(acc)
+        run_get_foreign_states(acc)
         run_refusals(acc)
         acc.exhaustive = True
     elif k == "bigcpu":
@@ -691,6 +720,8 @@ def run_shard(shard):
                 run_refusals(acc)
             elif kind == "sink_stale":
                 run_stale_sinks(acc)
+            elif kind == "sink_foreign_state":
+                run_get_foreign_states(acc)
             elif kind.startswith("sink_"):
                 run_sinks(acc)
             elif kind.startswith("nice"):
